@@ -142,6 +142,10 @@ class C09(Check):
             cfg.update({'backend': 'fortran', 'vectorize': False, 'mode': 'run', 'solver': 'euler', 'prelude': None,
                         'sparseness': None})
             cfg['steps'] = min(cfg['steps'], 30)
+        if stratum in ('S-alldelayed', 'S-mixed') and not spec.get('circuits') and rng.random() < 0.25:
+            # feature interaction: coupling operators (EdgeTemplates) on DELAYED edges - the edge delivers what its operator
+            # computed from the values of round(d/dt) steps ago, and nothing before that
+            models.add_edge_templates(rng, spec, p=0.6, delayed=True)
         if stratum == 'S-hub':
             spec = self.gen_hub(rng, dt)
             cfg['vectorize'] = rng.random() < 0.8
@@ -451,9 +455,12 @@ class C09(Check):
         else:
             edges = []
             per_src = {}
+            ets_ = spec.get('ets') or {}
+            if ets_:
+                bump('edge_templates')
             for s, t, a in net.edges:
                 nd = int(np.round(a['delay'] / dt)) if a.get('delay') else 0
-                edges.append((s, t, a.get('weight', 1.0), nd))
+                edges.append((s, t, a, nd))
                 per_src.setdefault(s, set()).add(nd)
             if any(len([x for x in v if x]) > 1 for v in per_src.values()):
                 bump('two_delays_one_source')
@@ -477,21 +484,22 @@ class C09(Check):
                         continue
                     invar = f"{node}/{opn}/{models.LIB[net.inst[(node, opn)]['lib']]['in']}"
                     want = float(ext_in[(node, opn)][k]) if (node, opn) in ext_in else 0.0
-                    for s, tt, w, nd in edges:
+                    for s, tt, a_, nd in edges:
                         if tt != invar:
                             continue
                         if nd == 0:
-                            want += w * yn[s]          # current value, as handed to this very evaluation
+                            want += models.edge_value(a_, ets_, yn, s)      # current values, as handed to this very evaluation
                         elif cfg.get('emulate') == 'roll_per_evaluation':
                             # defect model of KF-C09-heun-double-roll: the ring buffer advances once per EVALUATION
                             if e - nd >= 0:
-                                want += w * float(np.asarray(E[e - nd][1]).reshape(-1)[pos[s]])
+                                yv_ = np.asarray(E[e - nd][1]).reshape(-1)
+                                want += models.edge_value(a_, ets_, {n_: float(yv_[p_]) for n_, p_ in pos.items()}, s)
                                 active = True
                         elif k - nd >= 0:
-                            want += w * traj[k - nd][s]
+                            want += models.edge_value(a_, ets_, traj[k - nd], s)
                             active = True
                     if abs(g - want) > 1e-9 * max(1.0, abs(want), abs(g)):
-                        ins = [(s, w, nd) for s, tt, w, nd in edges if tt == invar]
+                        ins = [(s, a_.get('weight', 1.0), nd) for s, tt, a_, nd in edges if tt == invar]
                         V('L-delay', 'silent', ('heun-' if per == 2 else '') + ('vectorized' if cfg['vectorize'] else 'scalar'),
                           f'evaluation {e} (step {k}): {node}/{opn} received {g!r}, delay-line recurrence over the recorded '
                           f'trajectory gives {want!r}; incoming (source, weight, steps): {ins}; vectorize={cfg["vectorize"]}')
